@@ -62,6 +62,11 @@ def _menus():
         m["undeclared_on_default_type"] = (f"ds.Select(lambda e: e.{dcoll}('T').Select(lambda t: t.pdgId()))", True)
         if backend == "atlas":
             m["defaults"] = ("ds.Select(lambda e: e.TruthParticles('T').Select(lambda t: t.prodVtx().x()))", True)
+            # arithmetic between value types outside int/float/double (a declared unsigned, a 64-bit literal): refused - the
+            # same way whatever arithmetic earlier queries of the process contained
+            m["wide_declared"] = ("MetaData(ds, {'metadata_type': 'add_method_type_info', 'type_string': 'xAOD::Jet', 'method_name': 'nTrk', 'return_type': 'unsigned int'})"
+                                  ".Select(lambda e: e.Jets('A').Select(lambda j: j.nTrk() * 4000000000))", "any")
+            m["wide_literal"] = ("ds.Select(lambda e: e.Jets('A').Select(lambda j: j.pt() + 3000000000))", "any")
             m["getattr_fail"] = ("ds.Select(lambda e: e.Jets('A').Select(lambda j: j.getAttribute('x')))", False)
             m["jobscript"] = ("MetaData(ds, {'metadata_type': 'add_job_script', 'name': 'blk', 'script': ['# hello'], 'depends_on': []})" + body, True)
             m["coll_override"] = ("MetaData(ds, {'metadata_type': 'add_atlas_event_collection_info', 'name': 'Jets', 'include_files': ['x/Y.h'], "
@@ -322,6 +327,8 @@ def main(tier="quick"):
         want = MENUS[b][q][1]
         if want is None:
             want = ext
+        if want == "any":       # accepted or refused is not this property's matter: only that it does not depend on the history
+            continue
         if (out[0] == "pkg") != want:
             raise RuntimeError(f"harness: menu query {b}/{q} ext={ext} expected ok={want} but got {out[:3]}")
     seen_states = {}
@@ -462,7 +469,7 @@ def ext_state(h, i, b):
     for e in h[last + 1:]:
         if e[0] in ("tr", "again", "wrfail") and e[1] == i:
             return "unknown"
-        if e[0] == "apply" and e[1] == i and MENUS[b][e[2]][1] is False:
+        if e[0] == "apply" and e[1] == i and MENUS[b][e[2]][1] in (False, "any"):
             return "unknown"       # a query that cannot be translated may already fail (and reset) while it is applied
     return "attached"
 
